@@ -42,7 +42,8 @@ MDA, i.e. not one group covering everything and not acyclic; the other represent
 permutation of the default vector on every labelled n = 3 graph (the order axis supplies the relabellings of the
 representatives).  quick: <= 1 deviation on n = 2, the default vector on every labelled n = 3 graph, every listing
 permutation on the n = 3 representatives.  Both tiers: the acceleration x relaxation product (n = 2; n = 3: strongly
-connected representatives of the plain solvers, in thorough also the multi-component chains).  Cap: process-based
+connected representatives - Jacobi and Gauss-Seidel in quick, every class with a transformer and the multi-component
+chains in thorough).  Cap: process-based
 execution (every MDA iteration forks a pool) only as a single deviation.
 
 Oracles, all derived (max-norm; q, kappa = 1 / (1 - q) >= ||(I - M_sub)^-1||_inf for every principal subsystem):
@@ -76,8 +77,8 @@ Oracle boundaries (rule 1):
   (i)-(iii), with SciPy's documented criteria: nonlin methods stop on ||F||_inf <= tol ||F_0||_inf (s = r0); hybr /
   lm on MINPACK's xtol "relative error between two consecutive iterates" (s = sqrt(N) (1 + ||z*||)); df-sane on
   ||F|| <= tol (1 + ||F_0||).  These are SciPy's documented rules, not bounds proved from the tolerance (none
-  exists for a trust-region radius test).  broyden1 / broyden2 that signal non-convergence through the callback-fed
-  ``normed_residual`` are a violation on linear systems only (premise of the alphabet); on the nonlinear kinds SciPy's
+  exists for a trust-region radius test).  broyden1 / broyden2 runs whose callbacks counted max_mda_iter SciPy
+  iterations (maxiter exhausted) are a violation on linear systems only (premise of the alphabet); on the nonlinear kinds SciPy's
   Broyden updates carry no guarantee and nothing is claimed (counted).  linearmixing is not in the alphabet: its fixed mixing step needs more than
   200 residual evaluations on part of the family.
 * (i) is checked on the non-coupling outputs ``o{i}`` as on every other output (this is what exposed that
@@ -576,8 +577,9 @@ def run_case(case, tally):
                 else:
                     s = r0
                 rep, its = None, int(m.current_iter)
-                if meth in ("broyden1", "broyden2") and not float(m.normed_residual) <= TOL:
-                    # the Broyden callbacks refresh normed_residual: the only non-convergence signal of this class
+                if meth in ("broyden1", "broyden2") and m._current_iter >= m.settings.max_mda_iter:
+                    # the Broyden callbacks count SciPy's iterations: maxiter exhausted is the only non-convergence signal of
+                    # this class (the callback-fed normed_residual is scaled and normed differently from SciPy's own test)
                     if sysm.kind == "linear":  # premise of the alphabet: the method converges on linear systems
                         failed = failed or (f"{name}[{meth}]", float(m.normed_residual), its, m.settings.max_mda_iter)
                     elif decisive:  # no theory for SciPy's Broyden updates on the nonlinear kinds: nothing is claimed
@@ -776,7 +778,8 @@ def cases(thorough: bool):
                 else:  # quick, n = 3: default vector on every labelled graph; on the representatives every listing order and
                     # (strongly connected / multi-component ones) the acceleration x relaxation product
                     if is_rep:
-                        yield from expand(cls, n, e, lp, 1, only_axes={"order"}, transformer_product=deep and cls != "MDAChain")
+                        yield from expand(cls, n, e, lp, 1, only_axes={"order"},
+                                          transformer_product=deep and cls in ("MDAJacobi", "MDAGaussSeidel"))
                     else:
                         yield from expand(cls, n, e, lp, 0)
 
@@ -803,7 +806,7 @@ def run(ctx):
                                                           if not graph_class(n, e, lp).startswith(("one-group", "acyclic")))}
     ctx.tally.notes["graphs"] = gcount
     todo.sort(key=lambda c: c["_deviations"])  # simplest first (violations keep the first case of a signature)
-    pmap(_case, todo, ctx.tally, jobs=ctx.jobs, chunk=40, timeout=120)
+    pmap(_case, todo, ctx.tally, jobs=ctx.jobs, chunk=16, timeout=120)
     return {
         "level": LEVEL,
         "rule": "E2 deviation-bounded enumeration: (MDA class x coupling digraph) x every setting vector with <= k deviations from the "
@@ -815,8 +818,8 @@ def run(ctx):
            if ctx.thorough else
            "quick: k = 1 on every n = 2 graph, the default vector on every labelled n = 3 graph, every listing permutation on the n = 3 "
            "representatives")
-        + "; the acceleration x relaxation product of the composite transformer (n = 2, and the strongly connected n = 3 representatives of "
-        "the plain solvers).  A case is non-trivial when every solver loop reported convergence and at least one ran >= 3 iterations "
+        + "; the acceleration x relaxation product of the composite transformer (n = 2, and the strongly connected n = 3 representatives: "
+        + ("every class with a transformer" if ctx.thorough else "Jacobi and Gauss-Seidel") + ").  A case is non-trivial when every solver loop reported convergence and at least one ran >= 3 iterations "
         "(the update rule, not the first sweep, produced the returned point)",
         "exhaustive": True,
         "bounds": {"deviations": 2 if ctx.thorough else 1, "max_disciplines": 3, "sizes": [1, 2], "tolerance": TOL, "max_mda_iter": MAX_ITER,
